@@ -453,6 +453,11 @@ func oracleC03(e *Env, st *OracleState, i int, op *Op, res string) *Violation {
 
 // oracleC11: the independent decoder recovers what the accessors report.
 func oracleC11(e *Env, i int) *Violation {
+	if e.desync {
+		// a store failure has left handle and file apart; the next successful modification writes
+		// the whole table and the header, and the oracle speaks again from there
+		return nil
+	}
 	b := e.storeBytes()
 	h, ds, err := decodeRaw(b)
 	if err != nil {
